@@ -429,6 +429,36 @@ def str_split_once(exe, path, callee, args, dst_ty):
     return outs
 
 
+@contract(r'^(std::option::)?Option::<.*>::copied$|^(std::option::)?Option::<.*>::cloned$')
+def option_copied(exe, path, callee, args, dst_ty):
+    v = args[0]
+    yes, no = fork_variant(exe, path, v, 'Some')
+    outs = []
+    if yes is not None:
+        x = payload(exe, v, 'Some')
+        outs.append(('ret', yes, some(exe.load(yes, x) if isinstance(x, Ref) else x)))
+    if no is not None:
+        outs.append(('ret', no, NONE))
+    return outs
+
+
+@contract(r'^core::str::<impl str>::(ends_with|starts_with)::<char>$')
+def str_ends_with_char(exe, path, callee, args, dst_ty):
+    s = strval(exe, path, args[0])
+    ch = z3.simplify(args[1])
+    if not z3.is_int_value(ch):
+        raise MirUnsupported('ends_with symbolic char')
+    ends = 'ends_with' in callee
+    if isinstance(s, SeqV):
+        if not s.items:
+            return [('ret', path, z3.BoolVal(False))]
+        return [('ret', path, (s.items[-1] if ends else s.items[0]) == ch)]
+    if isinstance(s, z3.ExprRef) and z3.is_string(s):
+        t = z3.StringVal(chr(ch.as_long()))
+        return [('ret', path, z3.SuffixOf(t, s) if ends else z3.PrefixOf(t, s))]
+    raise MirUnsupported('ends_with on %r' % (s,))
+
+
 @contract(r'^(std::option::)?Option::<.*>::map_or::<')
 def option_map_or(exe, path, callee, args, dst_ty):
     v, default, f = args
@@ -554,6 +584,11 @@ def closure_fn(exe, clo):
 
 def call_closure(exe, path, clo, extra_args, then=None, data=None):
     """-> outcome ('running', path): the closure's MIR is executed; `then(exe, path, ret, data)` post-processes"""
+    if isinstance(clo, FnItem):
+        # a plain function used as the callback (`.map(decoded)`, `.and_then(char::from_u32)`)
+        if then is not None:
+            path.frames.append(NativeFrame(then, data))
+        return ('multi', exe.invoke(path, clo.name, list(extra_args)))
     name, by_ref = closure_fn(exe, clo)
     first = clo
     if by_ref:
